@@ -146,6 +146,28 @@ func genPtrCase(r *rng, id string) *ValCase {
 			hold(pick(r, cands))
 		}
 	}
+	if r.chance(1, 3) {
+		// an array element addressed by its index plus a multiple of 2^64 or 2^32: never the element
+		var idxLocs []string
+		for _, l := range g.locs {
+			i := strings.LastIndex(l, "/")
+			if i < 0 || i+1 >= len(l) {
+				continue
+			}
+			last, head := l[i+1:], l[:i+1]
+			if _, err := strconv.Atoi(last); err == nil && last[0] != '-' && last[0] != '+' &&
+				(strings.HasSuffix(head, "Of/") || strings.HasSuffix(head, "prefixItems/") || strings.HasSuffix(head, "/items/")) {
+				idxLocs = append(idxLocs, l)
+			}
+		}
+		if len(idxLocs) > 0 {
+			l := pick(r, idxLocs)
+			i := strings.LastIndex(l, "/")
+			n, _ := strconv.Atoi(l[i+1:])
+			sh := pick(r, []uint{64, 64, 32, 63, 65})
+			hold(l[:i+1] + new(big.Int).Add(new(big.Int).Lsh(big.NewInt(1), sh), big.NewInt(int64(n))).String())
+		}
+	}
 	if r.chance(1, 4) {
 		base := pick(r, g.locs)
 		bad := pick(r, []string{base + "/", base + "/nope", base + "/dependentRequired", base + "/allOf/-", base + "/allOf/+0", base + "/allOf/00",
